@@ -1089,6 +1089,37 @@ def _abs(L, x):
     return abs(x)
 
 
+def _ew_minmax(L, a, b, ismax):
+    """numpy.maximum / numpy.minimum (elementwise, broadcasting; NaN propagation is outside model R)"""
+    def one(x, y):
+        if is_sym(x) or is_sym(y):
+            zx, zy = to_z3(x), to_z3(y)
+            if zx.sort() != zy.sort():
+                zx, zy = to_real(zx), to_real(zy)
+            return z3.If(zx >= zy, zx, zy) if ismax else z3.If(zx <= zy, zx, zy)
+        return max(x, y) if ismax else min(x, y)
+    if isinstance(a, Arr) or isinstance(b, Arr):
+        da = a.dtype if isinstance(a, Arr) else ('float64' if isinstance(a, float) or (is_sym(a) and sort_kind(a) == 'float') else 'int64')
+        db = b.dtype if isinstance(b, Arr) else ('float64' if isinstance(b, float) or (is_sym(b) and sort_kind(b) == 'float') else 'int64')
+        dt = 'float64' if 'float64' in (da, db) else ('float32' if 'float32' in (da, db) else da)
+        return L.lift2(one, a, b, dt)
+    return one(a, b)
+
+
+@model('numpy.maximum', 'numpy.fmax')
+def _np_maximum(L, a, b, **kw):
+    if kw:
+        raise Unsupported('numpy.maximum keywords')
+    return _ew_minmax(L, a, b, True)
+
+
+@model('numpy.minimum', 'numpy.fmin')
+def _np_minimum(L, a, b, **kw):
+    if kw:
+        raise Unsupported('numpy.minimum keywords')
+    return _ew_minmax(L, a, b, False)
+
+
 @model('builtins.min')
 def _min(L, *a, **kw):
     return _minmax(L, a, kw, True)
@@ -1412,7 +1443,7 @@ def _np_round(L, x, decimals=0):
 def _finfo(L, dt):
     kind = dt.kind if isinstance(dt, Opaque) else (dt.dotted.split('.')[-1] if isinstance(dt, LibRef) else None)
     if kind in ('float64', 'float'):
-        return Opaque('finfo', eps=EPS64)
+        return Opaque('finfo', eps=EPS64, tiny=2.2250738585072014e-308, max=1.7976931348623157e+308, min=-1.7976931348623157e+308)
     if kind == 'float32':
         return Opaque('finfo', eps=EPS32)
     raise PyRaise(builtin_exc('ValueError'), 'finfo of non-float dtype')
